@@ -1,10 +1,12 @@
 """C20 — zero detection exact (exhaustive in (variant, len<=N, alignment, position))."""
 import os
 from verif import *
-def run(tier, replay=None):
-    v = Verdict("C20", tier)
+def run(tier, replay=None, v=None, memory_only=False):
+    own = v is None
+    if own: v = Verdict("C20", tier)
     wd = workdir("c20")
     N = 4400 if tier == "thorough" else 700
+    if memory_only: N = 400
     h = build_harness("h_mem", ["h_mem.c"])
     dump, res = os.path.join(wd, "mem.ndjson"), os.path.join(wd, "res.json")
     sh([h, dump, str(N)], timeout=3300)
@@ -15,10 +17,14 @@ def run(tier, replay=None):
     fns = sorted(set(x["fn"] for x in recs))
     if r["records"] != len(fns) * (N + 1): raise Infra("incomplete dump")
     for b in r["bad"][:40]:
+        if memory_only and not b["faults"]: continue
         what = ("fault" if b["faults"] else "all-zero region reported non-zero" if b["zero_wrong"] else "non-zero byte not detected")
         v.violation("%s:%s" % (b["fn"], what.split()[0]), "%s: %s at len=%d (placement idx %d, position %d; %d/%d positions detected)" %
                     (b["fn"], what, b["len"], b["bad_a"], b["bad_pos"], b["detected"], b["positions"]), {"record": b, "N": N})
     tot = sum(x["positions"] + x["placements"] for x in recs)
+    if not own:
+        cleanup(wd)
+        return {"calls": tot, "faults": sum(x["faults"] for x in recs)}
     cov = {"evaluations": tot, "distinct_nontrivial": sum(x["positions"] for x in recs), "exhaustive": True, "N": N, "variants": fns,
            "rule": "for every variant, every len in 0..N, placements {end flush against an inaccessible page, start flush, interior at every alignment 0..63 for len<200 and 8 spread alignments beyond}: "
                    "all-zero region with 0xFF neighbours must return 0; a single non-zero byte (0x01/0x80/0xFF rotating) at EVERY position must return non-zero; no access may fault. "
